@@ -74,6 +74,14 @@ pub fn features() -> Vec<gherkin::Feature> {
                             scenarios: vec![sc(s1), sc(s2)],
                             rules: vec![
                                 RuleSpec { tags: tagset(rt), bg: vec![], scenarios: vec![sc(s3), sc((s1 + s3) % 4)] },
+                                // later rules with a background of their own: what is dropped from an
+                                // earlier rule must not shift the decisions taken for these
+                                RuleSpec {
+                                    tags: tagset((rt + 1) % 3),
+                                    bg: vec![StepKind::Matched],
+                                    scenarios: vec![sc(s2), sc((s2 + s3) % 4), sc(s1)],
+                                },
+                                RuleSpec { tags: vec![], bg: vec![], scenarios: vec![sc((s1 + s2) % 4)] },
                                 RuleSpec::default(),
                             ],
                         };
@@ -83,6 +91,10 @@ pub fn features() -> Vec<gherkin::Feature> {
                         f.scenarios[1].name = NAMES[1].into();
                         f.rules[0].scenarios[0].name = NAMES[2].into();
                         f.rules[0].scenarios[1].name = NAMES[(s1 + s2) % 4].into();
+                        f.rules[1].scenarios[0].name = NAMES[(s2 + s3) % 4].into();
+                        f.rules[1].scenarios[1].name = NAMES[3].into();
+                        f.rules[1].scenarios[2].name = NAMES[(s1 + s3) % 4].into();
+                        f.rules[2].scenarios[0].name = NAMES[(s1 + 1) % 4].into();
                         out.push(f);
                     }
                 }
